@@ -153,13 +153,14 @@ fn pnm_write_faults(w: u32, h: u32, r: &mut Report) {
 
 /// Readers as an operating system hands them out: a read may return fewer bytes than asked for, and may fail with
 /// ErrorKind::Interrupted, which means "try again" (std's own adapters retry it). `plan[k]` is the answer to the k-th call:
-/// 0 = interrupted, n > 0 = at most n bytes; after the plan runs out, everything asked for.
+/// 0 = interrupted, 254 = a hard device error, other n > 0 = at most n bytes; after the plan runs out, everything asked for.
 struct Moody<'a> { data: &'a [u8], pos: usize, plan: Vec<u8>, call: usize }
 impl std::io::Read for Moody<'_> {
     fn read(&mut self, buf: &mut [u8]) -> std::io::Result<usize> {
         let a = self.plan.get(self.call).copied();
         self.call += 1;
         if a == Some(0) { return Err(std::io::Error::new(std::io::ErrorKind::Interrupted, "EINTR")); }
+        if a == Some(254) { return Err(std::io::Error::new(std::io::ErrorKind::Other, "device error")); }
         let n = buf.len().min(self.data.len() - self.pos).min(a.map_or(usize::MAX, |n| n as usize));
         buf[..n].copy_from_slice(&self.data[self.pos..self.pos + n]);
         self.pos += n;
@@ -177,6 +178,24 @@ fn pnm_read_answers(bytes: &[u8], r: &mut Report, tag: &str) {
     for k in 0..bytes.len().min(24) { let mut p = vec![255u8; k]; p.extend([0, 0, 0]); plans.push(p); }
     for n in 1..=3u8 { plans.push(vec![n; 2 * bytes.len() + 4]); }
     plans.push((0..2 * bytes.len() + 4).map(|k| if k % 2 == 0 { 0 } else { 1 }).collect());
+    // a device error while bytes of the image are still outstanding is an error of the read, never a (truncated) image
+    for k in 0..bytes.len() {
+        r.eval();
+        let mut plan = vec![1u8; k]; plan.push(254);
+        let mut rd = Moody { data: bytes, pos: 0, plan, call: 0 };
+        let got = caught(|| read_pnm(&mut rd).map(|b| b.dims()).map_err(|e| format!("{e:?}")));
+        let consumed = rd.pos;
+        match got {
+            Err(p) => { r.violation(format!("pnm-read-panic|{tag}"), format!("read_pnm panicked on a reader that fails after {k} bytes: {p}"), obj! {"kind" => "pnm-answers", "bytes" => hex(bytes)}); return; }
+            Ok(Ok(d)) if want.is_err() || consumed < bytes.len().min(k + 1) && false => { let _ = d; }
+            Ok(Ok(d)) => {
+                // fine only if the image was complete before the failing call: the k bytes delivered decode to the same image
+                let pre = caught(|| parse_pnm(bytes[..k].iter().copied()).map(|b| b.dims()));
+                if !matches!(pre, Ok(Ok(p)) if p == d) { r.violation(format!("pnm-read-vs-parse|device-error|{tag}"), format!("read_pnm returned a {d:?} image although the reader failed with a device error after {k} of {} bytes (those {k} bytes alone decode to {:?})", bytes.len(), pre.map(|x| x.map_err(|e| format!("{e:?}")))), obj! {"kind" => "pnm-answers", "bytes" => hex(bytes)}); return; }
+            }
+            Ok(Err(_)) => { r.nontrivial(); }
+        }
+    }
     for plan in plans {
         r.eval();
         let desc = if plan.is_empty() { "plain".to_string() } else if plan.iter().all(|a| *a != 0) { format!("{} bytes per call", plan[0]) } else if plan.iter().filter(|a| **a == 0).count() > 3 { "interrupted at every other call, one byte each otherwise".into() } else { format!("interrupted {} time(s) from call {}", plan.iter().filter(|a| **a == 0).count(), plan.iter().position(|a| *a == 0).unwrap()) };
@@ -654,6 +673,37 @@ fn obj_grammar(idx: u64, r: &mut Report, maxv: usize, maxf: usize) {
     }
 }
 
+/// The OBJ reader under every answer of its input stream: interruptions and short reads change nothing (read_obj ≡ parse_obj on
+/// the same bytes); a device error while bytes are outstanding is an error, never a (truncated) mesh.
+fn obj_read_answers(bytes: &[u8], r: &mut Report, tag: &str) {
+    let conv = |x: Result<re::geom::mesh::Builder<()>, re_geom::io::Error>| x.map(|b| { let m = b.build(); (m.verts.iter().map(|v| v.pos.0.map(f32::to_bits)).collect::<Vec<_>>(), m.faces.iter().map(|t| t.0).collect::<Vec<_>>()) }).map_err(|e| format!("{e:?}"));
+    let want = match caught(|| conv(parse_obj(bytes.iter().copied()))) { Ok(w) => w, Err(_) => return };
+    let case = || obj! {"kind" => "obj-answers", "bytes" => hex(bytes)};
+    let mut plans: Vec<Vec<u8>> = vec![vec![]];
+    for k in 0..=bytes.len() + 1 { let mut p = vec![255u8; k]; p.push(0); plans.push(p); }
+    for k in 0..bytes.len() { let mut p = vec![1u8; k]; p.extend([0, 0]); plans.push(p); }
+    for n in 1..=3u8 { plans.push(vec![n; 2 * bytes.len() + 4]); }
+    plans.push((0..2 * bytes.len() + 4).map(|k| if k % 2 == 0 { 0 } else { 1 }).collect());
+    for plan in plans {
+        r.eval();
+        let mut rd = Moody { data: bytes, pos: 0, plan: plan.clone(), call: 0 };
+        match caught(|| conv(read_obj(&mut rd))) {
+            Err(p) => { r.violation(format!("obj-panic|reader-answers|{tag}"), format!("read_obj panicked on an interrupted / short-reading reader: {p}"), case()); return; }
+            Ok(g) => { let same = match (&g, &want) { (Ok(a), Ok(b)) => a == b, (Err(_), Err(_)) => true, _ => false }; if !same { r.violation(format!("obj-read-vs-parse|reader-answers|{tag}"), format!("read_obj over a reader with answers {:?}.. gives {:?} but parse_obj on the same bytes gives {:?}", &plan[..plan.len().min(12)], g.as_ref().map(|m| (m.0.len(), m.1.len())), want.as_ref().map(|m| (m.0.len(), m.1.len()))), case()); return; } if want.is_ok() { r.nontrivial(); } }
+        }
+    }
+    for k in 0..bytes.len() {
+        r.eval();
+        let mut plan = vec![1u8; k]; plan.push(254);
+        let mut rd = Moody { data: bytes, pos: 0, plan, call: 0 };
+        match caught(|| conv(read_obj(&mut rd))) {
+            Err(p) => { r.violation(format!("obj-panic|device-error|{tag}"), format!("read_obj panicked on a reader that fails after {k} bytes: {p}"), case()); return; }
+            Ok(Ok(m)) => { r.violation(format!("obj-read-vs-parse|device-error|{tag}"), format!("read_obj returned a mesh ({} vertices, {} faces) although the reader failed with a device error after {k} of {} bytes", m.0.len(), m.1.len(), bytes.len()), case()); return; }
+            Ok(Err(_)) => { r.nontrivial(); }
+        }
+    }
+}
+
 /// Very long runs of blank and comment lines, each parsed in a child process (see below).
 fn obj_long_runs(quick: bool, rep: &mut Report) {
     // very long runs of blank and comment lines (a licence header, a stripped section): the work per skipped line is constant -
@@ -762,6 +812,8 @@ fn run_obj(cfg: &Cfg) -> ! {
         }));
     }
     obj_long_runs(quick, &mut rep);
+    // every answer of the input stream (interruptions, short reads, device errors at every byte)
+    for (tag, f) in [("triangle", &b"v 0 0 0\nv 1 0 0\nv 0 1 0\nf 1 2 3\n"[..]), ("faces first, crlf, no final newline", b"f 1//1 2//1 3//1\r\n# c\r\nvn 0 0 1\r\nv 1.5 -2 .5\r\nv 4 5 6\r\nv 7 8 9"), ("malformed", b"v 1 2\nf 1 2 3\n"), ("empty", b""), ("comment only", b"# nothing\n")] { obj_read_answers(f, &mut rep, tag); }
     let seeds: Vec<Vec<u8>> = vec![
         b"v 0 0 0\nv 1 0 0\nv 0 1 0\nf 1 2 3\n".to_vec(),
         b"f 1 2 3\nv 0 0 0\nv 1 0 0\nv 0 1 0\n".to_vec(),
@@ -851,6 +903,7 @@ fn main() {
                 "pnm-faults" => pnm_write_faults(case.get("w").and_then(|j| j.as_u64()).unwrap_or(0) as u32, case.get("h").and_then(|j| j.as_u64()).unwrap_or(0) as u32, r),
                 "pnm-answers" => pnm_read_answers(&bytes, r, "replay"),
                 "pnm-digits" => { let (w, h) = (case.get("w").and_then(|j| j.as_u64()).unwrap_or(0) as u32, case.get("h").and_then(|j| j.as_u64()).unwrap_or(0) as u32); let buf: Buf2<Color3> = Buf2::new_with((w, h), |x, y| rgb((x % 251) as u8, (y % 241) as u8, HOSTILE[((x + 2 * y) % 9) as usize])); let px: Vec<[u8; 3]> = buf.data().iter().map(|c| c.0).collect(); pnm_roundtrip_view(buf.as_slice2(), &(w, h, px), r, "replay", case.clone()); }
+                "obj-answers" => obj_read_answers(&bytes, r, "replay"),
                 "obj-total" => obj_totality(&bytes, r, "replay"),
                 "obj-long" => {
                     let (variant, n) = (case.get("variant").and_then(|j| j.as_u64()).unwrap_or(0), case.get("n").and_then(|j| j.as_u64()).unwrap_or(0));
